@@ -146,6 +146,58 @@ def _(s):
 def _(s):
     return rep(s, "        for dest in self._destinations:\n            try:", "        for dest in reversed(self._destinations):\n            try:")
 
+@mutant("c16_no_lock_write", "eliot/_output.py")
+def _(s):
+    return rep(s, "    @exclusively\n    def write(self, dictionary, serializer=None):", "    def write(self, dictionary, serializer=None):")
+
+@mutant("c16_no_lock_reset", "eliot/_output.py")
+def _(s):
+    return rep(s, "    @exclusively\n    def reset(self):", "    def reset(self):")
+
+@mutant("c16_no_lock_flush", "eliot/_output.py")
+def _(s):
+    return rep(s, "    @exclusively\n    def flushTracebacks(self, exceptionType):", "    def flushTracebacks(self, exceptionType):")
+
+@mutant("c16_two_writes_per_line", "eliot/_output.py")
+def _(s):
+    return rep(s, """        self.file.write(
+            self._dumps(message, default=self._json_default) + self._linebreak
+        )""", """        self.file.write(self._dumps(message, default=self._json_default))
+        self.file.write(self._linebreak)""")
+
+@mutant("c10_no_flush", "eliot/_output.py")
+def _(s):
+    return rep(s, "        self.file.flush()\n", "        pass\n")
+
+@mutant("c12_buffer_999", "eliot/_output.py")
+def _(s):
+    return rep(s, "while len(self.messages) > 1000:", "while len(self.messages) > 999:")
+
+@mutant("c12_any_added_never_set", "eliot/_output.py")
+def _(s):
+    return rep(s, "            self._any_added = True\n", "            pass\n")
+
+@mutant("c12_globals_once", "eliot/_output.py")
+def _(s):
+    return rep(s, "        message.update(self._globalFields)\n", "        for _k, _v in self._globalFields.items():\n            message.setdefault(_k, _v)\n")
+
+@mutant("c12_original_handover", "eliot/_output.py")
+def _(s):
+    s = rep(s, """            with buffer._lock:
+                # Re-deliver buffered messages (and whatever gets logged
+                # while doing so), then switch over in a single step:
+                while buffer.messages:
+                    buffered_messages, buffer.messages = buffer.messages, []
+                    for message in buffered_messages:
+                        self._deliver(destinations, message)
+                buffer._forward = self.send
+                self._destinations = destinations""", """            buffered_messages = buffer.messages
+            self._destinations = []
+            self._destinations.extend(destinations)
+            for message in buffered_messages:
+                self.send(message)""")
+    return s
+
 def main():
     name = sys.argv[1]
     d = sys.argv[2] if len(sys.argv) > 2 else "/tmp/mut"
